@@ -82,5 +82,26 @@ Proof.
     + apply Permutation_app_head. apply perm_extract; assumption.
     + apply Permutation_sym. apply Permutation_middle.
 Qed.
+
+(* the joint check of series_contract lives in canonical (equipotential-class)
+   space: a terminal of any non-wire component - a control node of a VCVS /
+   VCCS included - counts at the class of its node, whatever wire alias of
+   that class the netlist names.  So a joint that something senses through an
+   alias has a third terminal and the contract rejects the chain. *)
+Lemma terminals_at_In (c : nat -> nat) (S : list elem) (n : nat) (e : elem) (m : nat) :
+  In e S -> etyp e <> TW -> In m (enodes e) -> c m = n -> 1 <= terminals_at c S n.
+Proof.
+  induction S as [|a S IH]; intros He Ht Hm Hc; [destruct He|]. unfold terminals_at in *. cbn [fold_right].
+  destruct He as [->|He].
+  - assert (1 <= length (filter (fun m0 => Nat.eqb (c m0) n) (enodes e))).
+    { clear -Hm Hc. induction (enodes e) as [|x l IHl]; [destruct Hm|]. cbn [filter]. destruct Hm as [->|Hm].
+      - rewrite Hc, Nat.eqb_refl. cbn. apply le_n_S, Nat.le_0_l.
+      - destruct (Nat.eqb (c x) n); cbn [length]; [apply le_S|]; apply IHl; exact Hm. }
+    destruct (etyp e); try congruence; eapply Nat.le_trans; [exact H | apply Nat.le_add_r].
+  - specialize (IH He Ht Hm Hc). destruct (etyp a); try exact IH; eapply Nat.le_trans; [exact IH | apply Nat.le_add_l].
+Qed.
+Lemma terminals_at_alias (c : nat -> nat) (S : list elem) (n m m' : nat) :
+  c m = c m' -> (c m = n <-> c m' = n).
+Proof. intros ->. reflexivity. Qed.
 End Keyed.
 Arguments perm_split {K}. Arguments perm_extract {K}. Arguments lookup_all_spec {K}. Arguments find_In {K}. Arguments find_unique {K}. Arguments names_filter_NoDup {K}. Arguments lookup_cons {K}.
